@@ -15,7 +15,7 @@ open Mx.Weekly
                  (written additively over `Int`, `virt` and `unbondOut` are signed ledgers);
     * `res_eq`   reserve = generated (= `accumulated`) − paid;
     * `budget`   every accrual was split into a base share and a boosted cut;
-    * `pct_le`, `time`  side conditions that keep the model's guards silent. -/
+    * `pct_le`, `time`, `last_le`  side conditions (sane percentage, monotone time). -/
 structure Inv (s : St) : Prop where
   acc_le : s.accumulated ≤ s.capacity
   bal_eq : (s.bal : Int) + s.virt + s.accumulated = s.supply + s.unbondOut + s.capacity + s.reserve
@@ -23,14 +23,16 @@ structure Inv (s : St) : Prop where
   budget : s.baseBudget + s.boostedBudget = s.accumulated
   pct_le : s.boostedPct ≤ MAX_PERCENT
   time : s.firstWeek ≤ s.epoch
+  last_le : s.lastBlock ≤ s.block
 
 theorem inv_init (epoch block dsc maxApr minUnbond perBlock : Nat) (accts wl : List Nat) :
     Inv (init epoch block dsc maxApr minUnbond perBlock accts wl) := by
   constructor <;> simp [init, MAX_PERCENT]
 
 theorem inv_of_eff {s s' : St} (hi : Inv s) (h : Eff s s') : Inv s' := by
-  obtain ⟨tot, cut, pb, pbo, up, down, hgen, hcut, e1, e2, e3, e4, e5, e6, e7, hdown, e8, hp, e9, e10⟩ := h
-  obtain ⟨a1, a2, a3, a4, a5, a6⟩ := hi
+  obtain ⟨tot, cut, inc, pb, pbo, up, down, hgen, hcut, e1, e2, e3, e4, e5, e6, e7, hdown, e8, hp, e9, e10,
+    e11, e12, e13⟩ := h
+  obtain ⟨a1, a2, a3, a4, a5, a6, a7⟩ := hi
   have htot : tot ≤ s.capacity - s.accumulated := by
     rcases hgen with ⟨rfl, _⟩ | ⟨_, rfl, _⟩
     · exact Nat.zero_le _
@@ -42,6 +44,7 @@ theorem inv_of_eff {s s' : St} (hi : Inv s) (h : Eff s s') : Inv s' := by
   · omega
   · exact hp a5
   · omega
+  · rcases hgen with ⟨_, _, _, hl | hl⟩ | ⟨_, _, _, _, hl⟩ <;> omega
 
 theorem step_inv {s s' : St} {op : Op} {o : Out} (hi : Inv s) (h : step s op = some (s', o)) :
     Inv s' :=
